@@ -91,6 +91,14 @@ def run(chk):
             v0 = tv[0]
             cases.append(run_match(t, inst, tv, [[v0, sigma[v0]]], "consistent pre-match"))
             cases.append(run_match(t, inst, tv, [[v0, ["v", "zz"]]], "contradicting pre-match"))
+            if len(tv) == 2:
+                # several pre-matched variables are a conjunction of constraints
+                v1 = tv[1]
+                cases.append(run_match(t, inst, tv, [[v0, sigma[v0]], [v1, sigma[v1]]], "two consistent pre-matches"))
+                cases.append(run_match(t, shuffle(inst, rng), tv, [[v0, sigma[v0]], [v1, sigma[v1]]], "two consistent pre-matches"))
+                cases.append(run_match(t, inst, tv, [[v0, sigma[v0]], [v1, ["v", "zz"]]], "second pre-match contradicts"))
+                cases.append(run_match(t, inst, tv, [[v0, sigma[v1]], [v1, sigma[v1]]], "pre-matches swapped or equal"))
+                cases.append(run_match(t, shuffle(inst, rng), tv, [[v0, sigma[v1]], [v1, sigma[v0]]], "pre-matches swapped or equal"))
         for v in tv:
             d = drop_identity(t, v)
             if d is not None:
